@@ -1,5 +1,5 @@
 """C03 - parent, get_as and / navigate one consistent hierarchy"""
-from ..rules import exc, config, sidops, pathops, identity
+from ..rules import exc, config, sidops, pathops, identity, mutation
 
 DECIDES = ("every '/'-prefix of every template is owned by a type with compatible patterns (R-PREFIX / R-PATSUP on the folded, extrapolated and pattern-replaced tables); accessor shapes: parent = get_as(second-to-last key) with the untyped and one-field fallbacks, get_as copies the pairs up to and including the key and rebuilds through the factory, keytype / basetype / len / '/' (R-NAV); field order of path-built Sids (R-KEYTYPES, R-KEYORDER); untyped fallbacks never raise (R-EXC on the navigation entry points).")
 DOES_NOT_DECIDE = 'that the prefix string re-resolves to the same values (regular-expression evaluation)'
@@ -13,4 +13,5 @@ def rules(ctx, tier):
         lambda: config.rule_keytypes(ctx),
         lambda: pathops.rule_keyorder(ctx),
         lambda: identity.rule_ident(ctx),
+        lambda: mutation.rule_triple(ctx),
     ]
